@@ -42,7 +42,8 @@ var (
 )
 
 const findingQuoting = "F08" // values/keys emitted unquoted although kvstring cannot read them back
-const findingLimit = "F08b"  // 255 byte limit applied to the raw piece instead of the decoded value
+const findingLimit = "F08b"  // 255 byte limit applied to the raw (quoted) piece: a value whose quoted form is longer is printed as text the parser rejects
+const findingWrap = "F08b1"  // FIXED by 72eac47 (limit not re-tested after Unquote: wrapped length byte); tagged so that a recurrence names it
 const findingQKey = "F08c"   // field parser unquotes names, tag parser does not
 
 // ---------------------------------------------------------------------------------------------
@@ -593,8 +594,10 @@ func sectionTags(rng *vh.Rng) {
 		if p.oc != "rej" {
 			if kvField(m, "safe") == "1" {
 				nsafe++
+				sec.Distribution["safe:impl-"+p.oc]++
 			} else {
 				nunsafe++
+				sec.Distribution["not-safe:impl-"+p.oc]++ // how often a set outside the Safe class still round-trips (or not)
 			}
 		}
 		reportTagsRT("tags", map[string]interface{}{"kind": p.kind, "case": p.in}, p.oc, p.line, m)
@@ -669,7 +672,7 @@ func reportFieldsRT(section string, in interface{}, oc, kv string, wf bool, m st
 		f := vh.SpecFailure{Section: section, Kind: "fields-malformed", Input: in, Impl: "wf=0 " + oc, Spec: "well-formed length-prefixed fields", Model: m, ImplEqModel: eq,
 			What: "NewFieldsFromKVString accepts a text and returns a byte string that is not a well-formed field list"}
 		if eq && kvField(m, "long") == "1" {
-			f.Finding = findingLimit
+			f.Finding = findingWrap
 		}
 		res.SpecFail(f)
 		return
@@ -808,6 +811,12 @@ func sectionFields(rng *vh.Rng) {
 		addText("k=\"" + strings.Repeat("\\n", l/2) + "\"")
 		addText(strings.Repeat("k", l) + "=v")
 	}
+	// F08b: short values whose quoted form exceeds the limit (control bytes print as \x01, four bytes each), around the boundary
+	for _, n := range []int{61, 62, 63, 64, 65, 70} {
+		addText("k=\"=" + strings.Repeat("\x01", n) + "\"")
+		addText("k=\"" + strings.Repeat("\x01", n) + ",\",j=1")
+		addText("k=`\"=\"" + strings.Repeat("\x7f", n) + "`")
+	}
 	addText("k=\"" + strings.Repeat("\\\"", 120) + ",\"")
 	addText("k=\"" + strings.Repeat("\\\"", 126) + ",\"")
 	for i := 0; i < n; i++ {
@@ -842,6 +851,15 @@ func sectionFields(rng *vh.Rng) {
 			res.Mismatch(vh.Mismatch{Section: "fields", Function: b.fn[i], Input: p.in, Impl: fmt.Sprintf("%s wf=%v kv=%s", p.oc, p.wf, vh.HxS(p.kv)), Model: m})
 		}
 		reportFieldsRT("fields", p.in, p.oc, p.kv, p.wf, m)
+		if p.oc != "rej" {
+			cls := "safe"
+			if kvField(m, "qsafe") == "0" {
+				cls = "not-qsafe"
+			} else if kvField(m, "safe") == "0" {
+				cls = "too-long"
+			}
+			sec.Distribution[cls+":impl-"+p.oc]++
+		}
 	}
 	for i, p := range provs {
 		m := outs[i]
